@@ -9,6 +9,8 @@ structure DSt where
   s : St := St.init
   nextTask : Nat := 1000
   terminated : Bool := false
+  dead : List Nat := []
+  srcs : List (Nat × List Conn) := []
 
 def setModel (b : Bench) (i : Nat) (f : MDef → MDef) : Bench :=
   { models := (List.range b.models.length).map fun j =>
@@ -46,7 +48,11 @@ def simBoxes (d : DSt) : List Nat :=
   (List.range d.b.models.length).filter fun i => (d.b.models.getD i default).inSim
 
 def showReport (d : DSt) (s : St) : String :=
-  match report s (simBoxes d) with
+  match report d.b.prog s (simBoxes d) with
+  | .panic m => s!"panic {qname d 8 m}"
+  | .noRecipient (some m) => s!"no-recipient {qname d 8 m}"
+  | .noRecipient none => "no-recipient -"
+  | .timeout => "timeout"
   | .ok => "ok"
   | .messageLoss n => s!"message-loss {n}"
   | .deadlock l => "deadlock " ++ ",".intercalate (l.map fun (m, n) => s!"{qname d 8 m}:{n}")
@@ -57,6 +63,7 @@ def parseDst (kind v : String) : Option Dst :=
   match kind, v.toNat? with
   | "box", some j => some (.box j)
   | "sink", some k => some (.sink k)
+  | "dead", some j => some (.dead j)
   | _, _ => none
 
 def step (d : DSt) (ws : List String) : DSt × String :=
@@ -85,6 +92,35 @@ def step (d : DSt) (ws : List String) : DSt × String :=
     | some i, some port, some cm, some cr =>
       ({ d with b := setModel d.b i fun md => { md with initOps := md.initOps ++ [{ query := kind == "q", port := port, cmod := cm, cres := cr }] } }, "ok")
     | _, _, _, _ => (d, "bad-op")
+  | ["dead", j] =>
+    match j.toNat? with
+    | some j => ({ d with dead := j :: d.dead }, "ok")
+    | none => (d, "bad-op")
+  | ["timeout", _] => (d, "ok")
+  | ["src", sid, dk, dv, "add", a, "fmod", fm, "fres", fr] =>
+    match sid.toNat?, parseDst dk dv, a.toNat?, fm.toNat?, fr.toNat? with
+    | some sid, some dst, some a, some fm, some fr =>
+      let c : Conn := { dst := dst, add := a, fmod := fm, fres := fr }
+      let cur := ((d.srcs.find? (·.1 == sid)).map (·.2)).getD []
+      ({ d with srcs := (d.srcs.filter (·.1 != sid)) ++ [(sid, cur ++ [c])] }, "ok")
+    | _, _, _, _, _ => (d, "bad-op")
+  | ["sev", sid, p] =>
+    match sid.toNat?, p.toNat? with
+    | some sid, some p =>
+      if d.terminated then (d, "terminated | I  | H  | R  | K ") else
+      let conns := ((d.srcs.find? (·.1 == sid)).map (·.2)).getD []
+      let op : Op := conns.filterMap fun c => (accept c p).map fun p' => (c.dst, p', false)
+      let P := d.b.prog
+      let t := d.nextTask
+      let s1 := if op.isEmpty then d.s else (NexoVerif.Net.step P (.spawn t [op]) d.s).getD d.s
+      let s2 := runQ P (tasksOf d [t]) 200000 s1
+      ({ d with s := s2, nextTask := t + 1, terminated := showReport d s2 != "ok" }, renderDelta d d.s s2 (showReport d s2))
+    | _, _ => (d, "bad-op")
+  | ["fault", i, kind, p] =>
+    match i.toNat?, p.toNat? with
+    | some i, some p =>
+      ({ d with b := setModel d.b i fun md => if kind == "panic" then { md with panicOn := some p } else { md with sleepOn := some p } }, "ok")
+    | _, _ => (d, "bad-op")
   | ["init"] =>
     let P := d.b.prog
     let s0 := St.init
@@ -95,6 +131,8 @@ def step (d : DSt) (ws : List String) : DSt × String :=
     match j.toNat?, p.toNat? with
     | some j, some p =>
       if d.terminated then (d, "terminated | I  | H  | R  | K ") else
+      -- `process_event` ignores send errors: an event addressed directly to a dropped mailbox is lost silently
+      if d.dead.contains j then (d, "ok | I  | H  | R  | K ") else
       let P := d.b.prog
       let t := d.nextTask
       let s1 := (NexoVerif.Net.step P (.spawn t [[(.box j, p, false)]]) d.s).getD d.s
@@ -105,6 +143,7 @@ def step (d : DSt) (ws : List String) : DSt × String :=
     match j.toNat?, p.toNat? with
     | some j, some p =>
       if d.terminated then (d, "terminated | I  | H  | R  | K ") else
+      if d.dead.contains j then (d, "bad-query | I  | H  | R  | K ") else
       let P := d.b.prog
       let t := d.nextTask
       let s1 := (NexoVerif.Net.step P (.spawn t [[(.box j, p, true)]]) d.s).getD d.s
